@@ -46,3 +46,14 @@ m = {
 }
 json.dump(m, open(os.path.join(ROOT, "MANIFEST.json"), "w"), indent=1)
 print("checks:", [c["property_id"] for c in checks], "na:", len(na))
+
+# the fact files of the pinned tree (the baseline of the comparison "up to renaming" in ./check): refreshed from the last
+# regeneration, which tools_mkmanifest is run after (all twenty checks against /repo)
+import shutil, glob
+_root = os.path.dirname(os.path.abspath(__file__))
+_b = os.path.join(_root, "facts_baseline")
+os.makedirs(_b, exist_ok=True)
+for _f in glob.glob(os.path.join(_b, "*.lean")):
+    os.remove(_f)
+for _f in glob.glob(os.path.join(_root, "lean", "FoxModel", "Generated", "*.lean")):
+    shutil.copy(_f, _b)
